@@ -49,8 +49,9 @@ func checkAutoCompact(p *Program, r *Report) {
 		loop     string
 	}
 	cfg := &simCfg{
-		Pure:   map[string]bool{"log2": true},
-		Opaque: map[string]bool{"sizesToSegments": true},
+		Pure:     map[string]bool{"log2": true},
+		Opaque:   map[string]bool{"sizesToSegments": true},
+		BackVals: true,
 		OnStoreHook: func(c *simClient, x *Exec, st *State, fr *Frame, pos token.Pos, addr, val, old *Term) {
 			root := rootOf(addr)
 			if root.Op != "alloc" || root.Typ == nil || !types.Identical(root.Typ, segT) {
@@ -71,6 +72,7 @@ func checkAutoCompact(p *Program, r *Report) {
 	c, _ := runSim(p, chooser, cfg, nil)
 	one, zero := tConst("1", nil), tConst("0", nil)
 	nAdopt, nRet, nExt := 0, 0, 0
+	extBase, extStep := map[string]bool{}, map[string]bool{}
 	badSingle, badNil, badExt := "", "", ""
 	var wSingle, wNil, wExt []string
 	// loops in program order: the first is the selection loop, the others extend
@@ -123,6 +125,16 @@ func checkAutoCompact(p *Program, r *Report) {
 				if e.Op == "ev" && strings.HasPrefix(e.Aux, "segstore:") && e.Args[2].Aux == s.Loop && e.Args[3] == chosen {
 					adopted = true
 				}
+				// the best candidate so far may be kept in another local (a helper's
+				// own variable) and handed back by value: a whole-segment store in the
+				// selection loop whose value is not the candidate element itself (that
+				// is the copy into the loop variable) is an adoption too
+				if e.Op == "ev" && e.Aux == "segstore:*" && e.Args[2].Aux == s.Loop && e.Args[3] != chosen {
+					v := e.Args[0]
+					if v.Op != "elem" && v.Op != "draw" && v.Op != "inst" && v.Op != "anyelem" {
+						adopted = true
+					}
+				}
 			}
 			if !adopted {
 				continue
@@ -143,7 +155,8 @@ func checkAutoCompact(p *Program, r *Report) {
 		case s.Kind == "back" && s.Loop != selLoop && s.Loop != "":
 			// extension steps
 			for _, e := range s.Events {
-				if e.Op != "ev" || !strings.HasPrefix(e.Aux, "segstore:") || e.Args[2].Aux != s.Loop || e.Args[3] != chosen {
+				// (the segment being extended may be a by-value copy in a helper)
+				if e.Op != "ev" || !strings.HasPrefix(e.Aux, "segstore:") || e.Args[2].Aux != s.Loop {
 					continue
 				}
 				nExt++
@@ -154,7 +167,48 @@ func checkAutoCompact(p *Program, r *Report) {
 					if want == nil {
 						want = mk("bin", "-", nil, e.Args[1], one)
 					}
-					if e.Args[0].key != want.key {
+					if e.Args[0].key == want.key {
+						extBase[s.Loop] = true
+						break
+					}
+					// start := c for a loop counter c that is kept one below the start:
+					// base case above (first round), step here - the counter is what is
+					// stored and it is handed on decremented by one
+					step := false
+					for nm, hv := range s.HeadVals {
+						if hv == e.Args[0] && s.NextVals[nm] != nil {
+							if d := addConst(hv, -1, nil); (d != nil && d.key == s.NextVals[nm].key) || mk("bin", "-", nil, hv, one).key == s.NextVals[nm].key {
+								step = true
+							}
+						}
+					}
+					if step {
+						extStep[s.Loop] = true
+						// base case on the SSA form: the counter enters the loop as start - 1
+						for nm, hv := range s.HeadVals {
+							if hv != e.Args[0] || s.Fr == nil {
+								continue
+							}
+							for _, b := range s.Fr.fn.Blocks {
+								for _, ins := range b.Instrs {
+									ph, ok := ins.(*ssa.Phi)
+									if !ok || ph.Name() != nm {
+										continue
+									}
+									for i, ev := range ph.Edges {
+										if b.Preds[i].Dominates(b) && b.Dominates(b.Preds[i]) {
+											continue
+										}
+										if bo, ok := ev.(*ssa.BinOp); ok && bo.Op == token.SUB {
+											if c, ok := bo.Y.(*ssa.Const); ok && c.Value != nil && c.Value.ExactString() == "1" && isStartField(bo.X, segT) {
+												extBase[s.Loop] = true
+											}
+										}
+									}
+								}
+							}
+						}
+					} else {
 						badExt = "the start of the chosen segment is set to " + e.Args[0].String() + ", not to the position just below it"
 						wExt = witnessOf(p, s.St.trace)
 					}
@@ -203,6 +257,12 @@ func checkAutoCompact(p *Program, r *Report) {
 			r.violate(rule, fk+" / "+key, p.pos(chooser.Pos()), bad, w)
 		} else {
 			r.ok(rule, fk+" / "+key, okNote)
+		}
+	}
+	// an extension loop accepted by the counter argument needs its base case too
+	for lp := range extStep {
+		if !extBase[lp] && badExt == "" {
+			badExt = "the start of the chosen segment follows a loop counter that is not shown to begin just below the start"
 		}
 	}
 	report("SEG-NOT-SINGLE", "a one-table segment is never adopted", badSingle, fmt.Sprintf("%d adopting iterations, each after size != 1", nAdopt), wSingle)
@@ -310,4 +370,27 @@ func init() {
 		r.NotDecided = []string{"the power-of-two size classes (which segment is adopted among several)", "that 'nothing to do' coincides with 'no two adjacent tables in the same class'", "the 2*log2(N) depth bound and the N*log2(N) rewrite cost for uniform workloads", "that segment sizes are non-negative (end >= start for the candidates)"}
 		r.Assumptions = []string{"the candidate list is opaque: its segments are arbitrary", "log2 is pure"}
 	}
+}
+
+// isStartField: v reads the segment's start field (the first int field of the type).
+func isStartField(v ssa.Value, segT *types.Named) bool {
+	st, ok := segT.Underlying().(*types.Struct)
+	if !ok {
+		return false
+	}
+	startIdx := -1
+	for i := 0; i < st.NumFields(); i++ {
+		if fname(st.Field(i)) == "start" {
+			startIdx = i
+		}
+	}
+	switch x := v.(type) {
+	case *ssa.UnOp:
+		if fa, ok := x.X.(*ssa.FieldAddr); ok {
+			return fa.Field == startIdx
+		}
+	case *ssa.Field:
+		return x.Field == startIdx
+	}
+	return false
 }
